@@ -281,7 +281,9 @@ func (w *c03Srv) CheckUDP(reqAddr string) error {
 }
 
 func (w *c03Srv) New(sessionID uint32, reqAddr string) { w.lastSID = sessionID }
-func (w *c03Srv) Close(sessionID uint32, err error)    { w.x.Ev("event Close session %#x err=%v", sessionID, err) }
+func (w *c03Srv) Close(sessionID uint32, err error) {
+	w.x.Ev("event Close session %#x err=%v", sessionID, err)
+}
 
 func (w *c03Srv) openSock(sid uint32) *c03Sock {
 	for i := len(w.socks) - 1; i >= 0; i-- {
